@@ -1165,3 +1165,358 @@ class C33Xtriggers(Base):
         for key in list(self.unsat_for):
             if key not in seen:
                 del self.unsat_for[key]
+
+
+IMPLIED = {'succeeded': ['submitted', 'started'],
+           'failed': ['submitted', 'started'], 'started': ['submitted'],
+           'submit-failed': [], 'submitted': [], 'expired': []}
+
+
+class C29Set(Base):
+    """`cylc set`: outputs behave like naturally completed outputs."""
+    NAME = 'c29'
+    PID = 'C29'
+    K = 8
+
+    def __init__(self, case, phase):
+        super().__init__(case, phase)
+        self.cur = None
+        self.pre_all: Dict[str, int] = {}   # id -> ready iterations
+
+    def on_event(self, ev):
+        k = ev['k']
+        if k == 'SET_IN':
+            self.cur = {'in': ev, 'msgs': [], 'adds': [], 'states': []}
+        elif self.cur is not None and k == 'MSG_OUT' and ev.get('forced'):
+            self.cur['msgs'].append(ev)
+        elif self.cur is not None and k == 'POOL_ADD':
+            self.cur['adds'].append(ev['task'])
+        elif self.cur is not None and k == 'STATE':
+            self.cur['states'].append(ev)
+        elif k == 'SET_OUT' and self.cur is not None:
+            cur, self.cur = self.cur, None
+            self.judge(cur, ev)
+        elif k == 'PREP':
+            for t in ev['tasks']:
+                self.pre_all.pop(t['id'], None)
+
+    def judge(self, cur, out):
+        sin = cur['in']
+        gt = self.gt
+        before = {t['id']: t for t in sin['pool']}
+        after = {t['id']: t for t in out['pool']}
+        self.n['set_commands'] += 1
+        targets = [i for i in sin['items']
+                   if not any(c in i for c in '*?[')]
+        msgs = self.case.get('messages', {})
+        # (c) never puts a task into submitted/running
+        for st in cur['states']:
+            if st['after'][0] in ('submitted', 'running') and \
+                    st['before'][0] != st['after'][0]:
+                self.v('set-made-task-active',
+                       f'{st["id"]} went {st["before"][0]} -> '
+                       f'{st["after"][0]} during cylc set', st)
+        if sin['prereqs']:
+            self.n['set_prereqs'] += 1
+            for tid in targets:
+                a = after.get(tid)
+                if a is None:
+                    continue
+                p, n = split_id(tid)
+                if n not in gt['tasks']:
+                    continue
+                # only prerequisites the task actually has
+                gt_atoms = set()
+                for ar in wfgen.arrows_at(gt, n, p):
+                    for at in wfgen.atoms(ar):
+                        q = wfgen.atom_point(at, p)
+                        outs = ['succeeded', 'failed'] \
+                            if at[3] == 'finished' else [at[3]]
+                        for o in outs:
+                            gt_atoms.add((str(q), at[1],
+                                          msgs.get(at[1], {}).get(o, o)))
+                have = {(x[0], x[1], x[2]) for x in a['prereqs']}
+                self.n['prereq_key_checks'] += 1
+                if not have <= gt_atoms:
+                    self.v('set-pre-added-foreign-prerequisite',
+                           f'{tid} has prerequisites '
+                           f'{sorted(have - gt_atoms)[:3]} that the graph '
+                           'does not give it', a)
+                if sin['prereqs'] == ['all']:
+                    if not all(x[3] for x in a['prereqs']):
+                        self.v('set-pre-all-left-unsatisfied',
+                               f'{tid}: some prerequisites unsatisfied '
+                               'after set --pre=all', a)
+                    self.pre_all[tid] = 0
+            return
+        # outputs
+        self.n['set_outputs'] += 1
+        for tid in targets:
+            p, n = split_id(tid)
+            if n not in gt['tasks'] or p not in wfgen.task_points(gt, n):
+                continue
+            mine = [m for m in cur['msgs'] if m['id'] == tid]
+            b = before.get(tid)
+            final = set(mine[-1]['outputs_after']) if mine else (
+                set(b['outputs']) if b else None)
+            if final is None:
+                self.n['target_not_observed'] += 1
+                continue
+            req = list(sin['outputs'])
+            if not req:
+                if wfgen.effective_mode(gt, n) == 'fail_required':
+                    continue
+                want = set(wfgen.required_outputs(gt, n)) | {
+                    'submitted', 'started', 'succeeded'}
+                kind = 'default'
+            else:
+                want = set()
+                for o in req:
+                    if o in wfgen.STD or o in gt['tasks'][n]['outputs']:
+                        want.add(o)
+                        want.update(IMPLIED.get(o, []))
+                kind = 'explicit'
+            self.n[f'output_checks_{kind}'] += 1
+            missing = want - final
+            if missing:
+                self.v(f'set-outputs-incomplete:{kind}',
+                       f'{tid}: cylc set --out={req or "(default)"} left '
+                       f'{sorted(missing)} incomplete (completed: '
+                       f'{sorted(final)})', {'msgs': mine[-3:]})
+            # children spawned are GT children of newly completed outputs
+            base = set(b['outputs']) if b else set()
+            new = final - base
+            kids = set()
+            for o in new:
+                kids |= {f'{q}/{c}' for c, q in gt_children(gt, n, p, o)}
+            for t in cur['adds']:
+                if t['id'] == tid:
+                    continue
+                self.n['spawn_checks'] += 1
+                if t['id'] not in kids and len(targets) == 1:
+                    self.v('set-spawned-non-child',
+                           f'{t["id"]} was added to the pool by cylc set on '
+                           f'{tid} outputs {sorted(new)} but is not a graph '
+                           'child of them', t)
+            flows_ok = True
+            for kid in kids:
+                a = after.get(kid)
+                if a is None or a['status'] != 'waiting':
+                    continue
+                for x in a['prereqs']:
+                    if (x[0], x[1]) == (str(p), n):
+                        oname = x[2]
+                        for o2, text in msgs.get(n, {}).items():
+                            if text == x[2]:
+                                oname = o2
+                        if oname in new and kid not in before:
+                            self.n['child_atom_checks'] += 1
+                            if not x[3]:
+                                self.v('set-child-prerequisite-unsatisfied',
+                                       f'{kid} spawned by cylc set on {tid}:'
+                                       f'{oname} but that prerequisite is '
+                                       'unsatisfied', a)
+
+    def after_iter(self, drv, pool_snap):
+        schd = drv.schd
+        if schd.is_paused or schd.stop_mode or schd.reload_pending:
+            return
+        pool = {t['id']: t for t in pool_snap}
+        for tid in list(self.pre_all):
+            t = pool.get(tid)
+            if t is None or t['status'] != 'waiting':
+                self.pre_all.pop(tid, None)
+                continue
+            td = self.gt['tasks'].get(t['name'])
+            lim = self.gt['queues'].get(td['queue'], {}).get('limit', 0) \
+                if td else 0
+            ready = (all(x[3] for x in t['prereqs']) and not t['held']
+                     and not t['runahead'] and not lim
+                     and all(t['xtriggers'].values()))
+            if not ready:
+                self.pre_all[tid] = 0
+                continue
+            self.pre_all[tid] += 1
+            self.n['pre_all_ready_iterations'] += 1
+            if self.pre_all[tid] == self.K + 1:
+                self.v('set-pre-all-task-did-not-run',
+                       f'{tid}: all prerequisites satisfied by cylc set, '
+                       f'not held, released, yet not prepared after '
+                       f'{self.K + 1} iterations', t)
+
+
+class C30Remove(Base):
+    """Removing a task undoes exactly its effects."""
+    NAME = 'c30'
+    PID = 'C30'
+
+    def __init__(self, case, phase):
+        super().__init__(case, phase)
+        self.cur = None
+        self.db_checks = []     # (iteration, target, removed flows)
+
+    def on_event(self, ev):
+        if ev['k'] == 'REMOVE_IN':
+            self.cur = ev
+        elif ev['k'] == 'REMOVE_OUT' and self.cur is not None:
+            rin, self.cur = self.cur, None
+            self.judge(rin, ev)
+
+    def judge(self, rin, rout):
+        gt = self.gt
+        before = {t['id']: t for t in rin['pool']}
+        after = {t['id']: t for t in rout['pool']}
+        fl = set(rin['flow_nums'])
+        targets = [i for i in rin['ids']]
+        self.n['remove_commands'] += 1
+        touched = set(targets)
+        removed_flows = {}
+        for tid in targets:
+            b = before.get(tid)
+            p, n = split_id(tid)
+            if n not in gt['tasks']:
+                continue
+            if b is not None:
+                rem = set(b['flows']) if not fl or not b['flows'] \
+                    else set(b['flows']) & fl
+                removed_flows[tid] = rem
+                a = after.get(tid)
+                self.n['target_checks'] += 1
+                if rem and rem == set(b['flows']):
+                    if a is not None:
+                        self.v('target-still-in-pool',
+                               f'{tid} (flows {b["flows"]}) still in the '
+                               f'pool after removal from flows '
+                               f'{sorted(fl) or "all"}', a)
+                elif rem:
+                    self.n['partial_flow_removals'] += 1
+                    if a is None or set(a['flows']) != set(b['flows']) - rem:
+                        self.v('target-flows-wrong',
+                               f'{tid}: flows {b["flows"]} minus {sorted(rem)}'
+                               f' expected, got '
+                               f'{a["flows"] if a else "task removed"}',
+                               {'before': b, 'after': a})
+            else:
+                removed_flows[tid] = fl
+            self.db_checks.append([self.drv.bus.it, tid,
+                                   sorted(removed_flows[tid]), bool(fl)])
+            # children
+            kids = set()
+            for o in list(wfgen.STD) + list(gt['tasks'][n]['outputs']):
+                kids |= {f'{q}/{c}' for c, q in gt_children(gt, n, p, o)}
+            touched |= kids
+            for kid in kids:
+                kb = before.get(kid)
+                if kb is None or kid in targets:
+                    continue
+                ka = after.get(kid)
+                kflows = set(kb['flows'])
+                krem = kflows if not fl or not kflows else kflows & fl
+                mine_b = [x for x in kb['prereqs']
+                          if (x[0], x[1]) == (str(p), n)]
+                if not krem:
+                    # child not in the removed flows: must be untouched
+                    if ka is None or ka['prereqs'] != kb['prereqs']:
+                        self.v('child-in-other-flow-changed',
+                               f'{kid} (flows {kb["flows"]}) changed although'
+                               f' {tid} was removed from {sorted(fl)} only',
+                               {'before': kb, 'after': ka})
+                    continue
+                expect = []
+                for x in kb['prereqs']:
+                    y = list(x)
+                    if (x[0], x[1]) == (str(p), n) and x[3] and \
+                            x[4] != 'force satisfied':
+                        y[3], y[4] = False, None
+                        self.n['natural_atoms_unset_expected'] += 1
+                    elif (x[0], x[1]) == (str(p), n) and \
+                            x[4] == 'force satisfied':
+                        self.n['forced_atoms_kept_expected'] += 1
+                    expect.append(y)
+                any_sat = any(y[3] for y in expect)
+                must_go = (kb['status'] == 'waiting' and not kb['wojp']
+                           and krem == kflows and expect and not any_sat
+                           and expect != [list(x) for x in kb['prereqs']])
+                self.n['child_checks'] += 1
+                if must_go:
+                    self.n['children_expected_removed'] += 1
+                    if ka is not None:
+                        self.v('orphaned-child-not-removed',
+                               f'{kid} has no satisfied prerequisite left '
+                               f'after removing {tid} but stayed in the pool',
+                               {'before': kb, 'after': ka})
+                else:
+                    if ka is None:
+                        self.v('child-removed-wrongly',
+                               f'{kid} ({kb["status"]}, flows {kb["flows"]}) '
+                               f'was removed with {tid} although it is '
+                               'active, in another flow, or still has a '
+                               'satisfied prerequisite',
+                               {'before': kb})
+                        continue
+                    got = sorted([x[0], x[1], x[2], x[3]]
+                                 for x in ka['prereqs'])
+                    want = sorted([y[0], y[1], y[2], y[3]] for y in expect)
+                    if got != want:
+                        forced_lost = any(
+                            x[4] == 'force satisfied' for x in mine_b) and \
+                            not any(x[3] for x in ka['prereqs']
+                                    if (x[0], x[1]) == (str(p), n))
+                        self.v('child-prerequisites-wrong' + (
+                            ':forced-unset' if forced_lost else ''),
+                            f'{kid}: prerequisites after removing {tid} are '
+                            f'{got}, expected {want}',
+                            {'before': kb, 'after': ka})
+        # everything else unchanged
+        for tid, b in before.items():
+            if tid in touched:
+                continue
+            a = after.get(tid)
+            self.n['bystander_checks'] += 1
+            if a is None:
+                self.v('bystander-removed',
+                       f'{tid} disappeared during removal of {targets}',
+                       {'before': b})
+                continue
+            for fld in ('status', 'flows', 'outputs', 'prereqs'):
+                if a[fld] != b[fld]:
+                    self.v(f'bystander-changed:{fld}',
+                           f'{tid}: {fld} changed during removal of '
+                           f'{targets}: {b[fld]} -> {a[fld]}',
+                           {'before': b, 'after': a})
+
+    def after_iter(self, drv, pool_snap):
+        # history rows: after the iteration's DB commit
+        todo = [c for c in self.db_checks if c[0] <= drv.bus.it]
+        if not todo:
+            return
+        self.db_checks = [c for c in self.db_checks if c[0] > drv.bus.it]
+        import json as _json
+        import sqlite3 as _sq
+        path = drv.schd.workflow_db_mgr.pri_path
+        try:
+            con = _sq.connect(f'file:{path}?mode=ro', uri=True, timeout=5)
+        except _sq.Error:
+            return
+        try:
+            for it, tid, rem, explicit in todo:
+                p, n = tid.split('/', 1)
+                for table in ('task_states', 'task_outputs'):
+                    rows = con.execute(
+                        f'SELECT flow_nums FROM {table} WHERE cycle=? AND '
+                        'name=?', (p, n)).fetchall()
+                    self.n['history_row_checks'] += 1
+                    for (fn,) in rows:
+                        flows = set(_json.loads(fn))
+                        bad = flows & set(rem) if explicit else flows
+                        # a task re-added to the pool in the same iteration
+                        # legitimately has a new row
+                        in_pool = any(t['id'] == tid for t in pool_snap)
+                        if bad and not in_pool:
+                            self.v(f'history-not-erased:{table}',
+                                   f'{tid}: {table} still has a row for '
+                                   f'flows {sorted(flows)} after removal '
+                                   f'from {rem or "all flows"}',
+                                   {'rows': [r[0] for r in rows]})
+        finally:
+            con.close()
